@@ -691,9 +691,37 @@ fn scenario_access(args: &Args, report: &mut Report) {
             _ => None,
         }
     };
+    // One kept-alive connection, opened before any reload, carries an announce of every torrent in every phase (followed by
+    // 'stopped' when it was accepted, so that the stored counts stay what the fresh-connection announces made them):
+    // decisions must follow the list in force for a client session that predates the reload too.
+    let mut kept: Option<Conn> = Conn::open(tracker.v4, Some(ip)).ok();
+    let mut kept_round = |report: &mut Report, listed: [bool; 3], phase: &str| {
+        for (i, h) in [h1, h2, h3].iter().enumerate() {
+            let c = match kept.as_mut() {
+                Some(c) => c,
+                None => return,
+            };
+            let rp = c.request(&announce_req(h, 77, if i == 1 { "" } else { "started" }, 1, None, "", ""), 15_000).map_err(|e| format!("{:?}", e)).and_then(|x| classify(&x.body));
+            report.eval();
+            report.count("access.announce_on_kept_connection");
+            match (&rp, permitted(listed[i])) {
+                (Ok(Reply::Announce { .. }), true) => {
+                    let _ = c.request(&announce_req(h, 77, "stopped", 1, None, "", ""), 15_000);
+                }
+                (Ok(Reply::Failure(_)), false) => {}
+                (Err(e), _) if e.contains("closed") || e.contains("Closed") || e.contains("Eof") || e.contains("EOF") => {
+                    // keep-alive may be off in this configuration: the connection is simply gone; reopen
+                    report.count("access.kept_connection_reopened");
+                    kept = Conn::open(tracker.v4, Some(ip)).ok();
+                }
+                (other, ok) => report.violation(if ok { "http.live.permitted_announce_refused" } else { "http.live.forbidden_announce_accepted" }, "access", format!("{}: {} hash announced on the kept-alive connection opened before the reload answered with {:?}", phase, if listed[i] { "listed" } else { "unlisted" }, other), case.clone()),
+            }
+        }
+    };
     announce(report, &h1, true, "initial list");
     announce(report, &h2, false, "initial list");
     announce(report, &h3, false, "initial list");
+    kept_round(report, [true, false, false], "initial list");
     for (h, listed) in [(h1, true), (h2, false), (h3, false)] {
         let want = if permitted(listed) { 1 } else { 0 };
         report.eval();
@@ -713,10 +741,12 @@ fn scenario_access(args: &Args, report: &mut Report) {
     }
     announce(report, &h2, true, "after reload");
     announce(report, &h1, false, "after reload");
+    kept_round(report, [false, true, false], "after reload, before the cleaning pass");
     if !wait_cleans(2, cfg.w) {
         report.inconclusive("no cleaning pass observed (http.clean_done)");
         return;
     }
+    kept_round(report, [false, true, false], "after reload and cleaning pass");
     let expect_after: Vec<([u8; 20], usize)> = if deny { vec![(h1, 1), (h2, 0), (h3, 1)] } else { vec![(h1, 0), (h2, 1), (h3, 0)] };
     for (h, want) in expect_after {
         report.eval();
@@ -747,6 +777,7 @@ fn scenario_access(args: &Args, report: &mut Report) {
         announce(report, &h2, true, "after failed reload");
         announce(report, &h1, false, "after failed reload");
         announce(report, &h3, false, "after failed reload");
+        kept_round(report, [false, true, false], "after failed reload");
         report.nontrivial(vcore::fnv(format!("failed/{}/{}", k, deny).as_bytes()));
     }
     report.sample(json!({"mode": if deny {"deny"} else {"allow"}, "config": cfg.label}));
